@@ -15,10 +15,15 @@ var vhPow10 = [...]float64{1, 10, 100, 1000, 10000}
 
 // C19 clause 1: a decimal k*10^-d (0<=d<=4) converts to exactly Number=k, Scale=-d and reads back within 0.00005.
 func VH_c19_scaled() {
-	// the (d, sub-range of k) pairs are spread over the workers
+	// the (d, sub-range of k) pairs are spread over the workers; d=4 is the hard case for the
+	// floating-point solver and gets its own (finer) number of sub-ranges
 	ranges := verifrt.Param("ranges", 1)
-	c := verifrt.ShardChoice("case", 5*ranges)
+	ranges4 := verifrt.Param("ranges4", ranges)
+	c := verifrt.ShardChoice("case", 4*ranges+ranges4)
 	d, r := c/ranges, c%ranges
+	if c >= 4*ranges {
+		d, r, ranges = 4, c-4*ranges, ranges4
+	}
 	k := verifrt.I32("k")
 	bound := int64(1) << uint(verifrt.Param("kbits", 20))
 	lo := -bound + int64(r)*(2*bound)/int64(ranges)
